@@ -486,6 +486,13 @@ def evaluate(ctx, cases, label, n_u=3, exhaustive_max=10, exhaustive_cap=None, m
         if cover != closed_impl:
             # every dart in exactly one plaquette <=> no INVALID entry in edges.adjacent_plaquettes (C02)
             viol("closed-lattice-tables", f"darts_cover(model checker on implementation plaquettes) = {cover} but edges.adjacent_plaquettes has {'no ' if closed_impl else ''}INVALID entries", {})
+        # "the flux of EACH plaquette": the fluxes cover the plaquettes of the lattice, not only those the implementation lists.
+        # Ground truth for the number of plaquettes on a generic lattice: the model finder (proved to return exactly the
+        # legitimate faces, C01); a missing or extra plaquette also silently breaks the global product rule, because the
+        # lattice then no longer looks closed to the tables
+        if generic and o["mp"][0] != "ERR" and int(o["mp"][0]) != F:
+            viol("fluxes-do-not-cover-the-plaquettes", f"the lattice has {o['mp'][0]} plaquettes (exact finder), fluxes_from_ujk returns {F} fluxes: "
+                 f"{'a plaquette has no flux' if int(o['mp'][0]) > F else 'a flux is reported for a face that is no plaquette'}", {})
         # S + K per bond configuration
         for i, u in enumerate(us):
             cur_u[0] = u
